@@ -202,12 +202,23 @@ def system_population(ctx, P, iters):
         w = Walker(P, view, keep=keep, inline=rules.new_helper, loop_iters=iters)
         for st in w.paths_of(cls, fn):
             inc = 0
-            for e in st.events:
-                if e.kind in ("iter", "loopexit"):
-                    inc = 0
+            in_iter, guarded, first_call = False, False, None
+
+            def close_iteration():
+                # every batch member that reaches the guard must itself be counted once, so that the members after it see it
+                if in_iter and guarded and inc != 1:
+                    ctx.violation(ob, "R5.system-population", "%s.have_event" % cls.name, "creation counter %+d per batch member" % inc, "batch-member-not-counted",
+                                  "within a batch the creation counter must grow by one per member inside the loop: otherwise later members of the batch are "
+                                  "tested against a population that does not include the earlier ones", first_call.where, witness(st))
+            for e in list(st.events) + [None]:
+                if e is None or e.kind in ("iter", "loopexit"):
+                    close_iteration()
+                    inc, guarded = 0, False
+                    in_iter = e is not None and e.kind == "iter"
                 elif e.kind == "aug":
                     inc += int(e.d["value"]) if e.d["op"] == "Add" and e.d["value"].isdigit() else 99
                 elif e.kind == "call":
+                    guarded, first_call = True, e
                     off = inc + const
                     ob.ok("%s:offset=%d" % (view.name, off), "increments before guard %d + property constant %d" % (inc, const))
                     if off != 0:
@@ -219,7 +230,7 @@ def system_population(ctx, P, iters):
         ws = [x for x in rules.attr_writes(P, "system_capacity") if x[0] is not None and x[0].name in view.mro]
         for ci, f, n, recv, how in ws:
             ob.ok("system_capacity writer %s" % rules.qual(ci, f))
-            if f.name != "__init__":
+            if "__init__" not in rules.effective_names(P, ci, f):
                 ctx.violation(ob, "R1.config", rules.qual(ci, f), unparse(n), "capacity-rewritten", "system_capacity written outside __init__", loc(n))
 
 
@@ -341,18 +352,18 @@ def derived_bound(ctx, P):
             continue
         n += 1
         ob.seen("%s:%s" % (rules.qual(ci, fn), unparse(node)))
-        if fn.name == "__init__":
+        if "__init__" in rules.effective_names(P, ci, fn):
             continue
         recomputed = any(isinstance(x, (ast.Assign, ast.AugAssign)) and any(is_self_attr(t, "node_capacity") for t in (x.targets if isinstance(x, ast.Assign) else [x.target]))
                          for x in ast.walk(fn))
         if not recomputed:
-            ctx.violation(ob, "R5.derived", rules.qual(ci, fn), unparse(node), "node_capacity-not-recomputed",
+            ctx.violation(ob, "R5.derived", rules.qual(ci, fn), unparse(rules.inline_locals(fn, node)), "node_capacity-not-recomputed",
                           "self.c is rewritten but node_capacity (= queue capacity + c, computed in __init__) is not recomputed: "
                           "with a server schedule the bound stays at the value for the initial shift", loc(node))
     ctx.floor("writes of Node.c", n, 3)
     # node_capacity itself: written only in __init__ / together with c
     for ci, fn, node, recv, how in rules.attr_writes(P, "node_capacity"):
         ob.seen("cap:%s" % rules.qual(ci, fn))
-        if recv != "self" or (fn.name != "__init__" and not any(is_self_attr(t, "c") for x in ast.walk(fn) if isinstance(x, ast.Assign) for t in x.targets)):
+        if recv != "self" or ("__init__" not in rules.effective_names(P, ci, fn) and not any(is_self_attr(t, "c") for x in ast.walk(fn) if isinstance(x, ast.Assign) for t in x.targets)):
             ctx.violation(ob, "R1.config", rules.qual(ci, fn), unparse(node), "capacity-rewritten",
                           "node_capacity written outside __init__ / a shift change", loc(node))
